@@ -239,8 +239,8 @@ impl Check for C20 {
     }
     fn lanes(&self, tier: Tier) -> Vec<(&'static str, usize, usize)> {
         match tier {
-            Tier::Quick => vec![("miniscript", 20_000, 300), ("descriptor", 10_000, 300), ("policy", 20_000, 200)],
-            Tier::Thorough => vec![("miniscript", 2_000_000, 400), ("descriptor", 1_000_000, 400), ("policy", 2_000_000, 300)],
+            Tier::Quick => vec![("miniscript", 1_600_000, 300), ("descriptor", 800_000, 300), ("policy", 1_600_000, 200)],
+            Tier::Thorough => vec![("miniscript", 32_000_000, 400), ("descriptor", 16_000_000, 400), ("policy", 32_000_000, 300)],
         }
     }
     fn run_case(&self, lane: &str, src: &mut Src, rep: &mut Report) -> Result<(), Failure> {
